@@ -221,6 +221,8 @@ def r_gamma_store(ctx, model):
 def r_wellformed(ctx, model):
     """X1 definite assignment + X4 undefined global names over every function of the package"""
     import builtins
+    from ..model import Model
+    model = Model.raw()         # names are checked on the source as written
     nf = 0
     reported = 0
     suppressed = []
@@ -232,7 +234,7 @@ def r_wellformed(ctx, model):
         for base in mod.star_imports:
             if base in model.mods:
                 o = model.mods[base]
-                modnames |= set(o.globals) | set(o.imports) | set(o.classes) | {q for q in o.funcs if "." not in q}
+                modnames |= set(o.globals) | set(o.imports) | set(o.classes) | {q for q in o.funcs if "." not in q} | set(getattr(o, "exported_names", ()))
             else:
                 star_ext = True
         # names bound at module level by for/with/try
